@@ -16,6 +16,8 @@ EVDIR = os.environ.get("VERIF_EVIDENCE_DIR", "evidence")  # matrix runs over see
 
 EXIT_OK, EXIT_VIOLATION, EXIT_UNDECIDED, EXIT_ENGINE = 0, 1, 2, 3
 
+from .core import Unsupported, Poison  # noqa: E402
+
 
 class Unit:
     def __init__(self, name, qualname, contract, receiver=None, setup=None, no_contract_for=(), max_paths=4000, case=()):
@@ -69,7 +71,7 @@ def _run_one(i):
 def run_units(world, units, jobs=None):
     global _W, _UNITS
     _W, _UNITS = world, units
-    jobs = jobs or min(16, max(1, len(units)))
+    jobs = jobs or min(int(os.environ.get("VERIF_JOBS", "16") or 16), max(1, len(units)))  # VERIF_JOBS: fewer workers when several checks share the machine
     results = [None] * len(units)
     if jobs == 1 or len(units) == 1:
         for i in range(len(units)):
@@ -155,12 +157,20 @@ def check_property(mod, world, tier="quick", seed=0):
     prop = mod.PROP
     rep = Report(prop, tier, seed)
     os.makedirs(os.path.join(VERIF, EVDIR, "replays"), exist_ok=True)
-    units = mod.build(world)
-    if not units and not getattr(mod, "extra_checks", None):
+    build_unsupported = None
+    try:
+        units = mod.build(world)
+    except Unsupported as e:
+        # the contracts of this property cannot even be instantiated on this source (a table they are derived from is defined
+        # outside the subset): the whole check is outside the subset, the bounded stand-in decides
+        units, build_unsupported = [], str(e)
+    if not units and not getattr(mod, "extra_checks", None) and build_unsupported is None:
         rep.say(f"ENGINE-ERROR property={prop}: no verification units")
         rep.bump(EXIT_ENGINE)
     results = run_units(world, units)
     obligs, stats, crashes = [], [], []
+    if build_unsupported is not None:
+        crashes.append(("build", "unsupported: " + build_unsupported))
     for i, obs, st, err in results:
         stats.append(st)
         if err:
@@ -173,6 +183,9 @@ def check_property(mod, world, tier="quick", seed=0):
     if extra:
         try:
             obligs.extend(extra(world))
+        except Unsupported as e:
+            # a table or declaration the structural obligations read is outside the subset: undecided here, the bounded stand-in decides
+            crashes.append(("extra_checks", "unsupported: " + str(e)))
         except Exception:  # noqa: BLE001
             crashes.append(("extra_checks", traceback.format_exc()))
     # outcome coverage of case-split units: every outcome of the contract must be reached in at least one arm of the split
